@@ -8,6 +8,7 @@ op "instances": for every model instance (samples' posteriors as genotype counts
     GenotypeMultiTrace whose retained steps have exactly the instance's empirical posterior; the
     record is then summarised and formatted by the real code (REFMASKED / ALT / GT / AFP / AOP / ACP / GP).
 op "programs": real assemble runs (real MCMC) with the per-sample traces captured, for TraceHapCalling.tla.
+op "wide": impl/c13wide.py, generated loci with 70-140 samples and more than 127 / 255 reported ALT haplotypes.
 Only observations are returned; the comparison with the model is made by check_C13.py.
 """
 import copy
@@ -246,6 +247,10 @@ def run(task):
         return out
     if op == "programs":
         return run_programs(task)
+    if op == "wide":
+        from impl import c13wide          # loci with more than 127 / 255 reported ALT haplotypes
+
+        return c13wide.run(task)
     raise ValueError(op)
 
 
